@@ -291,7 +291,7 @@ class Prop:
                 import traceback
                 tb = traceback.extract_tb(e.__traceback__)
                 where = next((f"{fr.filename}:{fr.lineno}" for fr in reversed(tb) if "/repo/" in fr.filename), "")
-                if tb and "/repo/" not in tb[-1].filename and "/verif/" in tb[-1].filename and isinstance(e, (AttributeError, ImportError, KeyError, TypeError)):
+                if tb and "/repo/" not in tb[-1].filename and "/verif/" in tb[-1].filename and isinstance(e, (AttributeError, ImportError, KeyError, TypeError, NameError)):
                     # raised by the harness's own code (it can no longer observe the implementation, e.g. an internal name it reads
                     # is gone): the correspondence is broken, that is not a failing input of the property
                     harness_errors.append(f"{type(e).__name__}: {str(e)[:160]} at {tb[-1].filename}:{tb[-1].lineno}")
